@@ -935,7 +935,8 @@ func (p *PolicyManager) SyncPodChains(pod *corev1.Pod) error {
 		return p.deletePodChains(pod)
 	}
 	if pod.Status.PodIP == "" {
-		return nil
+		// not networked (yet, or a pod re-created under the same name), the chain and rules of a former address must not stay
+		return p.deletePodChains(pod)
 	}
 	if err := p.ensureBasicChain(); err != nil {
 		return err
